@@ -44,6 +44,22 @@ CHECKS = {
             "For every class and every constraint it declares or inherits (required child, optional/required groups declared anywhere in the MRO, enumerations, string length, integer digits, order, duplicates, slot kinds, list member types, unknown keywords) the violating and the boundary variant of the minimal document is built through from_etree and through keyword construction; TLC runs the document machine on the same tokens and judges accept/reject, cross-checks the generator's intention, and re-validates every returned instance after writing it.",
             "Trusted: TLC, the exporter, OFXTypes for value limits. Depth-1 focus (each class is the root once) with minimal valid sub-aggregates. Classes whose custom validation is not in the extra-rule table are not judged on rejection.",
             "DESIGN.md section 6 C04"),
+    "C03": ("TLA+ OFXAggregate + OFXTypes: TLC-simulated valid documents of all classes with leaf texts from each type's lexical space; converted model recomputed by TLC (set equality of placed values)",
+            "TLC -simulate on the live schema generates valid documents (every class as root) whose leaves get texts from the whole lexical space of their type; the real conversion is projected to (class, ordered children, values) and TLC's document machine with OFXTypes.Conv at the leaves recomputes the whole instance - same places, same values, nothing else; every enumeration token and notation is also tried in the minimal document of its class.",
+            "Trusted: TLC, the exporter, OFXTypes (independent transcription of the type rules). Sampled, not exhaustive, over documents.",
+            "DESIGN.md section 6 C03"),
+    "C07": ("TLA+ OFXAggregate skip rule: unknown/vendor elements and subtrees inserted at every position of valid documents, through from_etree and XML/SGML text, trace-validated against the machine and the twin document",
+            "For the TLC-computed minimal document of every class and TLC-simulated valid documents, unknown data elements, empty elements, aggregates with known content, tags known elsewhere and vendor-prefixed elements/aggregates are inserted at positions inside any aggregate (thorough: every position), converted directly and through the XML and SGML renderings; TLC judges the mutated document (accepted, model equal to the machine's) and the model must equal the conversion of the document without the insertions.",
+            "Trusted: TLC, the exporter. Quick tier samples positions/kinds; thorough enumerates every position.",
+            "DESIGN.md section 6 C07"),
+    "C01": ("Composition OFXFile = OFXHeader + OFXSyntax + OFXAggregate: instances of all classes written by OFXClient.serialize in all wire forms; TLC reads the written bytes to an instance and compares with the original and with what the library reads back",
+            "TLC-simulated valid instances of all classes (rich values, non-UTC zones, sub-ms parts) and the minimal instance of every class are written in XML / SGML closed / SGML unclosed x plain / pretty x header versions and read back; TLC reads the same bytes with the reference header reading, lexer, tree builder and document machine and judges: the file is well-formed and denotes the original instance, and the model read back equals it.",
+            "Trusted: TLC, the three specification layers, the instance projection (instants to the ms, decimal sign/digits/exponent, exact strings). Two known findings (unclosed form with an empty aggregate; TAX1099INT_V100 list slot).",
+            "DESIGN.md section 6 C01"),
+    "C11": ("Composition OFXFile with the Lexical predicates of OFXTypes: adversarial values set on instances of all classes, written in all wire forms; TLC judges every written data element",
+            "Instances of all classes get adversarial values through the model's own attribute interface (decimals of any exponent, NaN/Infinity, markup and entity-like strings, date-times in any zone with arbitrary names, bool for integers); each is written in the wire forms and TLC reads the bytes: every data element must be lexically valid for its declared type and clean on the wire ('<' never raw, '&' only starting an entity); a refusal to write is an accepted outcome.",
+            "Trusted: TLC, the lexical predicates transcribed from OFX 3.2.8. Control characters and edge white space in strings are outside the quantifier. One known finding (unclosed form with an empty aggregate).",
+            "DESIGN.md section 6 C11"),
 }
 
 PENDING = {}
